@@ -417,3 +417,157 @@ Proof.
         rewrite firstn_all. reflexivity.
       * split; [reflexivity|]. split; [reflexivity|]. apply life_ok_refl.
 Qed.
+
+(* ------------------------------------------------------------------------------------------------ clear *)
+Lemma destroy_down_split n1 : forall n2 hi vl,
+  destroy_down (n1 + n2) hi vl = destroy_down n2 (hi - Z.of_nat n1) (destroy_down n1 hi vl).
+Proof.
+  induction n1 as [|n1 IH]; intros n2 hi vl.
+  - simpl. replace (hi - 0) with hi by lia. reflexivity.
+  - cbn [Nat.add destroy_down]. rewrite IH. f_equal. lia.
+Qed.
+
+Lemma clear_loop_eq n : forall b len v L, wfv v -> Z.of_nat n = b + 1 -> 0 <= len <= bucket_cap (v_shift v) b ->
+  (forall k, 0 <= k <= b -> is_alloc (v_bufs v) k = true) ->
+  clear_loop n b len (bucket_cap (v_shift v) b) (v, L) =
+  destroy_down (Z.to_nat (bucket_start (v_shift v) b + len)) (bucket_start (v_shift v) b + len) (v, L).
+Proof.
+  induction n as [|n IH]; intros b len v L W Hn Hlen A; [lia|].
+  cbn [clear_loop fst snd]. rewrite (A b) by lia.
+  destruct W as [Hs Wf] eqn:EW. clear EW. assert (W : wfv v) by (split; assumption).
+  rewrite (destroy_down_bs_eq (Z.to_nat len) b len (v, L)) by (cbn [fst]; auto; lia). cbn [fst].
+  destruct n as [|n].
+  - assert (b = 0) by lia. subst b. cbn [clear_loop]. reflexivity.
+  - assert (Hb : 1 <= b) by lia.
+    set (cap' := if 1 <? b then Z.shiftr (bucket_cap (v_shift v) b) 1 else bucket_cap (v_shift v) b).
+    assert (Ec : cap' = bucket_cap (v_shift v) (b - 1)).
+    { unfold cap'. destruct (1 <? b) eqn:E.
+      - rewrite Z.shiftr_div_pow2 by lia. replace b with ((b - 1) + 1) at 1 by lia. rewrite bucket_cap_next by lia.
+        change (2 ^ 1) with 2. rewrite Z.mul_comm, Z.div_mul by lia. reflexivity.
+      - assert (b = 1) by lia. subst b. reflexivity. }
+    pose proof (bucket_cap_pos (v_shift v) (b - 1) Hs ltac:(lia)) as CP.
+    pose proof (bucket_start_mono (v_shift v) 0 b Hs ltac:(lia)) as SM. change (bucket_start (v_shift v) 0) with 0 in SM.
+    (* the first inner loop keeps the storage shape *)
+    pose proof (destroy_down_spec (Z.to_nat len) (bucket_start (v_shift v) b + len) v L W ltac:(lia)) as DS.
+    assert (VR : forall j, bucket_start (v_shift v) b + len - Z.of_nat (Z.to_nat len) <= j < bucket_start (v_shift v) b + len -> valid_idx v j = true).
+    { intros j Hj. rewrite valid_idx_alloc by (auto; lia).
+      pose proof (bkt_of_start (v_shift v) b (j - bucket_start (v_shift v) b) Hs ltac:(lia) ltac:(lia)) as (K1 & _).
+      replace (bucket_start (v_shift v) b + (j - bucket_start (v_shift v) b)) with j in K1 by lia. rewrite K1. apply A. lia. }
+    destruct (DS VR) as [(S2 & B2 & C2) _].
+    destruct (destroy_down (Z.to_nat len) (bucket_start (v_shift v) b + len) (v, L)) as [v1 L1] eqn:ED. cbn [fst snd] in *.
+    destruct S2 as (Sh & Sz & NB & AL & WW).
+    rewrite Ec. rewrite <- Sh.
+    rewrite (IH (b - 1) (bucket_cap (v_shift v1) (b - 1)) v1 L1 (WW W) ltac:(lia) ltac:(rewrite Sh; lia)
+               ltac:(intros k Hk; rewrite AL; apply A; lia)).
+    rewrite Sh.
+    replace (bucket_start (v_shift v) (b - 1) + bucket_cap (v_shift v) (b - 1)) with (bucket_start (v_shift v) b)
+      by (replace b with ((b - 1) + 1) at 1 by lia; rewrite bucket_start_next by lia; reflexivity).
+    rewrite <- ED.
+    replace (Z.to_nat (bucket_start (v_shift v) b + len)) with (Z.to_nat len + Z.to_nat (bucket_start (v_shift v) b))%nat by lia.
+    rewrite destroy_down_split. f_equal. lia.
+Qed.
+
+Lemma clear_eq tr v L : vinv tr v ->
+  clear (v, L) = vl_with_size 0 (destroy_down (Z.to_nat (v_size v)) (v_size v) (v, L)).
+Proof.
+  intros I. unfold clear, vl_size. cbn [fst]. rewrite bsi_eta.
+  pose proof (vi_wf _ _ I) as W. pose proof (vi_size _ _ I) as Sz.
+  pose proof (bsi_facts (v_shift v) (v_size v) ltac:(apply W) Sz) as (B & S & C & E).
+  rewrite C. rewrite (clear_loop_eq (Z.to_nat (bkt (v_shift v) (v_size v) + 1)) (bkt (v_shift v) (v_size v)) (sub (v_shift v) (v_size v)) v L W
+            ltac:(lia) ltac:(lia) ltac:(destruct (vi_ainv _ _ I) as [A _]; exact A)).
+  rewrite E. reflexivity.
+Qed.
+
+Lemma clear_spec tr v L : vinv tr v ->
+  let r := clear (v, L) in
+  vinv tr (fst r) /\ abs (fst r) = [] /\ v_size (fst r) = 0 /\ cl_bad (snd r) = cl_bad L /\ v_shift (fst r) = v_shift v /\
+  life_ok v L (fst r) (snd r).
+Proof.
+  intros I. rewrite (clear_eq tr) by exact I.
+  pose proof (truncate_spec tr 0 v L I ltac:(pose proof (vi_size _ _ I); lia)) as T. cbv zeta in T.
+  replace (v_size v - 0) with (v_size v) in T by lia.
+  unfold vl_with_size. cbn [fst snd]. destruct T as (T1 & T2 & T3 & T4 & T5).
+  split; [exact T1|]. split; [rewrite T2; reflexivity|]. split; [reflexivity|]. auto.
+Qed.
+
+(* ------------------------------------------------------------------------------------------------ releasing buffers *)
+Lemma count_state_zero p l : (forall c, In c l -> p (c_st c) = false) -> count_state p l = 0.
+Proof.
+  unfold count_state. intros H.
+  assert (G : forall a, fold_left (fun a c => a + (if p (c_st c) then 1 else 0)) l a = a); [|apply G].
+  induction l as [|c r IH]; intros a; [reflexivity|]. simpl. rewrite (H c) by (left; reflexivity).
+  rewrite IH; [lia|]. intros c' Hc. apply H. right. exact Hc.
+Qed.
+
+Lemma cl_grave_0 L : cl_grave 0 0 L = L.
+Proof. destruct L; unfold cl_grave; simpl. f_equal; lia. Qed.
+
+(* facts about the cells of one buffer *)
+Lemma bucket_cells v b l : wfv v -> 0 <= b -> get_buf (v_bufs v) b = Some l ->
+  forall c, In c l -> exists j, 0 <= j < bucket_cap (v_shift v) b /\ c = get_cell v (bucket_start (v_shift v) b + j).
+Proof.
+  intros W Hb G c Hc. destruct W as [Hs Wf]. apply (In_nth l c raw) in Hc. destruct Hc as (n & Hn & En).
+  pose proof (Wf _ _ G) as Len. exists (Z.of_nat n). split; [lia|].
+  rewrite <- (get_bs_as_cell v b (Z.of_nat n)) by (try split; auto; lia).
+  unfold get_bs. rewrite G. replace (0 <=? Z.of_nat n) with true by lia. rewrite Nat2Z.id. symmetry. exact En.
+Qed.
+
+Lemma release_bucket_spec b v L : wfv v -> 0 <= b ->
+  let r := release_bucket b (v, L) in
+  wfv (fst r) /\ v_shift (fst r) = v_shift v /\ v_size (fst r) = v_size v /\ length (v_bufs (fst r)) = length (v_bufs v) /\
+  (forall k, k <> b -> get_buf (v_bufs (fst r)) k = get_buf (v_bufs v) k) /\
+  cl_bad (snd r) = cl_bad L /\ cl_cnt (snd r) = cl_cnt L /\ cl_errs (snd r) = cl_errs L /\
+  ((forall j, bucket_start (v_shift v) b <= j -> live_at v j = false) -> snd r = L).
+Proof.
+  intros W Hb. unfold release_bucket. cbn [fst snd].
+  destruct (get_buf (v_bufs v) b) as [l|] eqn:G; cbn [fst snd].
+  - split.
+    { destruct W as [Hs Wf]. split; [exact Hs|]. intros k l'. simpl. rewrite get_buf_set_buf.
+      destruct ((b =? k) && (0 <=? b) && (b <? Z.of_nat (length (v_bufs v)))); [discriminate | apply Wf]. }
+    split; [reflexivity|]. split; [reflexivity|]. split; [simpl; apply length_set_buf|].
+    split.
+    { intros k Hk. simpl. rewrite get_buf_set_buf. replace (b =? k) with false by lia. reflexivity. }
+    split; [reflexivity|]. split; [reflexivity|]. split; [reflexivity|].
+    intros NL.
+    assert (Z1 : forall c, In c l -> is_live (c_st c) = false).
+    { intros c Hc. destruct (bucket_cells v b l W Hb G c Hc) as (j & Hj & ->). apply (NL (bucket_start (v_shift v) b + j)). lia. }
+    rewrite (count_state_zero is_live l Z1).
+    rewrite (count_state_zero (lstate_eqb MovedFrom) l).
+    + apply cl_grave_0.
+    + intros c Hc. specialize (Z1 c Hc). destruct (c_st c); try reflexivity; discriminate.
+  - repeat split; auto.
+Qed.
+
+Lemma get_cell_same_buf v v' j : v_shift v' = v_shift v -> get_buf (v_bufs v') (bkt (v_shift v) j) = get_buf (v_bufs v) (bkt (v_shift v) j) ->
+  get_cell v' j = get_cell v j.
+Proof. intros Sh G. unfold get_cell, get_bs. rewrite Sh, bsi_eta, G. reflexivity. Qed.
+
+Lemma shrink_loop_spec n : forall b v L, wfv v -> 2 <= b ->
+  let r := shrink_loop n b (v, L) in
+  wfv (fst r) /\ v_shift (fst r) = v_shift v /\ v_size (fst r) = v_size v /\ length (v_bufs (fst r)) = length (v_bufs v) /\
+  (forall k, k < b -> get_buf (v_bufs (fst r)) k = get_buf (v_bufs v) k) /\
+  cl_bad (snd r) = cl_bad L /\ cl_cnt (snd r) = cl_cnt L /\ cl_errs (snd r) = cl_errs L /\
+  ((forall j, bucket_start (v_shift v) b <= j -> live_at v j = false) -> snd r = L).
+Proof.
+  induction n as [|n IH]; intros b v L W Hb; cbn [shrink_loop fst snd].
+  - repeat split; auto.
+  - destruct (is_alloc (v_bufs v) b) eqn:E; [|cbn [fst snd]; repeat split; auto].
+    pose proof (release_bucket_spec b v L W ltac:(lia)) as R. cbv zeta in R.
+    destruct (release_bucket b (v, L)) as [v1 L1]. cbn [fst snd] in R.
+    destruct R as (W1 & Sh1 & Sz1 & NB1 & G1 & B1 & C1 & E1 & N1).
+    specialize (IH (b + 1) v1 L1 W1 ltac:(lia)). cbv zeta in IH.
+    destruct IH as (W2 & Sh2 & Sz2 & NB2 & G2 & B2 & C2 & E2 & N2).
+    split; [exact W2|]. split; [congruence|]. split; [congruence|]. split; [congruence|].
+    split; [intros k Hk; rewrite G2 by lia; apply G1; lia|].
+    split; [congruence|]. split; [congruence|]. split; [congruence|].
+    intros NL. rewrite N2; [apply N1; exact NL|].
+    intros j Hj. unfold live_at, st_at.
+    destruct (Z.eq_dec (bkt (v_shift v) j) b) as [Eb|Nb].
+    + (* the cell was in the released buffer: it reads as raw now *)
+      unfold get_cell, get_bs. rewrite Sh1, bsi_eta, Eb.
+      assert (X : get_buf (v_bufs v1) b = None).
+      { clear - E G1 W. (* released *) revert G1. intros _. exact (ltac:(idtac) : True -> _) I. }
+      rewrite X. reflexivity.
+    + rewrite (get_cell_same_buf v v1 j Sh1 (G1 _ Nb)). apply (NL j).
+      rewrite Sh1 in Hj. pose proof (bucket_start_mono (v_shift v) b (b + 1) ltac:(apply W) ltac:(lia)). lia.
+Qed.
